@@ -2,7 +2,8 @@
 # usage: make -f build.mk FLAVOUR=asan|fast [-j16]
 REPO    ?= /repo
 FLAVOUR ?= asan
-B       := build/$(FLAVOUR)
+TAG     ?=
+B       := build/$(FLAVOUR)$(TAG)
 CXX     := g++
 
 COMMON  := -std=c++17 -g -fno-omit-frame-pointer -pthread \
